@@ -4,7 +4,19 @@
 From QV Require Import Common.Prelude Engine.Model.
 Open Scope Z_scope.
 
-Inductive case := mkCase (p : program) (ops : list op) (real : list opres).
+(** the persisted bookkeeping of one query as the real engine reports it through the
+    read-only hook `qbice::verif_hooks::dump_node` *)
+Record ndump := mkDump {
+  d_verified : option N; d_pending : option N;
+  d_tfc : list node; d_fwd : list node; d_obs : list node; d_dirty : list node;
+  (* observed dependencies whose observed value / transitive-firewall-callee fingerprint is
+     the one the dependency records now *)
+  d_obs_val_cur : list node; d_obs_tfc_cur : list node }.
+
+Inductive case :=
+| mkCase (p : program) (ops : list op) (real : list opres)
+| mkCaseS (strict : bool) (p : program) (ops : list op) (real : list opres) (states : list (list (node * ndump))).
+(* strict = false: db-backed run; see [ndump_eqb] *)
 
 Definition count (x : node) (l : list node) : nat := length (filter (node_eqb x) l).
 Definition multiset_eqb (a b : list node) : bool :=
@@ -35,6 +47,19 @@ Definition optN_eqb (a b : option N) : bool :=
 Definition opres_eqb (stat : bool) (m r : opres) : bool :=
   rout_eqb (r_out m) (r_out r) && multiset_eqb (r_execs m) (r_execs r)
   && (negb stat || optN_eqb (r_dirtied m) (r_dirtied r)).
+(** db-backed runs ([strict = false]): executions of projections are not compared.  When a
+    firewall changes, the projections that read it are re-run by parallel backward-projection
+    tasks; a projection P0 that another of them (P1) reads is either reached first by its own
+    task (unconditional re-execution) or first as a dependency of P1 (ordinary repair: clean if
+    the firewall has the value P0 saw last) - on a db-backed engine every cache miss is a
+    scheduling point and either order occurs (observed: model [F0; P0; P1], engine [F0; P1],
+    same values and same state afterwards).  The justification oracle of the harness still
+    judges every real execution on its own. *)
+Definition no_proj (l : list node) : list node := filter (fun n => negb (kind_eqb (nkind n) KProjection)) l.
+Definition opres_eqb_gen (strict stat : bool) (m r : opres) : bool :=
+  if strict then opres_eqb stat m r
+  else rout_eqb (r_out m) (r_out r) && multiset_eqb (no_proj (r_execs m)) (no_proj (r_execs r))
+       && (negb stat || optN_eqb (r_dirtied m) (r_dirtied r)).
 Definition has_fw_exec (r : opres) : bool := existsb (fun n => is_fw_or_proj (nkind n)) (r_execs r).
 Definition is_session (r : opres) : bool := match r_out r with RSession _ => true | _ => false end.
 
@@ -49,10 +74,61 @@ Fixpoint first_diff_from (i : N) (stat : bool) (m r : list opres) : option N :=
   end.
 Definition first_diff := fun (i : N) => first_diff_from i true.
 
+(** * state-level comparison: after every operation, every query's bookkeeping *)
+Definition model_dump (s : state) (n : node) : ndump :=
+  match get_info s n with
+  | None => mkDump None None [] [] [] [] [] []
+  | Some i =>
+      let fwd := all_callees (i_fwd i) in
+      mkDump (Some (i_verified i)) (i_pending i) (i_tfc i) fwd (map fst (i_obs i))
+             (filter (fun c => emem (n, c) (s_dirty s)) fwd)
+             (map fst (filter (fun '(x, (v, _)) => match get_info s x with Some xi => i_value xi =? v | None => false end) (i_obs i)))
+             (map fst (filter (fun '(x, (_, t)) => match get_info s x with Some xi => nset_eqb (i_tfc xi) t | None => false end) (i_obs i)))
+  end.
+(** [last_verified] is compared only as "computed or not": whether a clean query is stamped in
+    this epoch depends on whether some pedantic walk reached it before or after the (parallel)
+    transitive-firewall repair of its caller, i.e. on task order inside one request (observed:
+    model 5, engine 4 for an external input below a firewall; values and everything else equal) *)
+Definition opt_same_shape (a b : option N) : bool :=
+  match a, b with Some _, Some _ | None, None => true | _, _ => false end.
+(** The pending-backward-projection mark is compared on in-memory runs only: on a db-backed
+    engine every cache miss is a scheduling point, and whether a changed firewall is reached
+    first by the transitive-firewall repair of a root (which runs its backward projections and
+    clears the mark) or as a dependency of a sibling task (which leaves the mark for the rest
+    of the epoch) then depends on task order inside one request (observed: 2 of 300 histories
+    on db:1, mark of the current epoch present in the model and absent in the engine; values,
+    executions and everything else equal). *)
+Definition ndump_eqb_gen (strict dirty : bool) (a b : ndump) : bool :=
+  opt_same_shape (d_verified a) (d_verified b) && (negb strict || optN_eqb (d_pending a) (d_pending b))
+  && nset_eqb (d_tfc a) (d_tfc b) && list_eqb node_eqb (d_fwd a) (d_fwd b)
+  && nset_eqb (d_obs a) (d_obs b) && (negb dirty || nset_eqb (d_dirty a) (d_dirty b))
+  && nset_eqb (d_obs_val_cur a) (d_obs_val_cur b) && nset_eqb (d_obs_tfc_cur a) (d_obs_tfc_cur b).
+Definition ndump_eqb := ndump_eqb_gen true.
+Definition state_eqb (strict dirty : bool) (s : state) (real : list (node * ndump)) : bool :=
+  forallb (fun '(n, d) => ndump_eqb_gen strict dirty (model_dump s n) d) real.
+
+(** runs the model over the history; returns the index of the first operation after which
+    result or state differ.  Dirty marks are compared under the same restriction as the
+    statistic (until the first firewall/projection re-execution of an epoch). *)
+Fixpoint states_diff (strict : bool) (p : program) (i : N) (stat : bool) (s : state) (ops : list op)
+         (real : list opres) (states : list (list (node * ndump))) : option N :=
+  match ops, real, states with
+  | [], [], [] => None
+  | o :: ops', y :: real', st :: states' =>
+      let '(s', x) := step p s o in
+      let stat1 := (stat || is_session y) && negb (has_fw_exec y) && negb (has_fw_exec x) in
+      if opres_eqb_gen strict stat1 x y && state_eqb strict stat1 s' st
+      then states_diff strict p (i + 1) stat1 s' ops' real' states'
+      else Some i
+  | _, _, _ => Some i
+  end.
+
 Definition check (c : case) : bool :=
   match c with
   | mkCase p ops real =>
       match first_diff 0 (run_history p init_state ops) real with None => true | Some _ => false end
+  | mkCaseS strict p ops real states =>
+      match states_diff strict p 0 true init_state ops real states with None => true | Some _ => false end
   end.
 
 Fixpoint failures_from (i : N) (cs : list case) : list N :=
@@ -66,7 +142,7 @@ Definition failures (cs : list case) : list N := failures_from 0 cs.
 From QV Require Import Engine.Core.
 Definition check_core (c : case) : bool :=
   match c with
-  | mkCase p ops real =>
+  | mkCase p ops real | mkCaseS _ p ops real _ =>
       match first_diff 0 (crun_history p cinit ops) real with None => true | Some _ => false end
   end.
 Fixpoint core_failures_from (i : N) (cs : list case) : list N :=
@@ -87,7 +163,7 @@ Fixpoint values_diff (i : N) (m r : list opres) : option N :=
   end.
 Definition check_values (c : case) : bool :=
   match c with
-  | mkCase p ops real => match values_diff 0 (run_history p init_state ops) real with None => true | Some _ => false end
+  | mkCase p ops real | mkCaseS _ p ops real _ => match values_diff 0 (run_history p init_state ops) real with None => true | Some _ => false end
   end.
 Fixpoint value_failures_from (i : N) (cs : list case) : list N :=
   match cs with
@@ -95,3 +171,17 @@ Fixpoint value_failures_from (i : N) (cs : list case) : list N :=
   | c :: r => if check_values c then value_failures_from (i + 1) r else i :: value_failures_from (i + 1) r
   end.
 Definition value_failures (cs : list case) : list N := value_failures_from 0 cs.
+
+(** the same cases against the firewall fragment model (inputs, normal and firewall queries) *)
+From QV Require Import Engine.Fw.
+Definition check_fw (c : case) : bool :=
+  match c with
+  | mkCase p ops real | mkCaseS _ p ops real _ =>
+      match first_diff 0 (frun_history p init_state ops) real with None => true | Some _ => false end
+  end.
+Fixpoint fw_failures_from (i : N) (cs : list case) : list N :=
+  match cs with
+  | [] => []
+  | c :: r => if check_fw c then fw_failures_from (i + 1) r else i :: fw_failures_from (i + 1) r
+  end.
+Definition fw_failures (cs : list case) : list N := fw_failures_from 0 cs.
